@@ -25,6 +25,10 @@ def run(ctx):
                 "plain edges use different keys.")
     n = esat.run(ctx, F)
     ctx.floor("E-SAT", "interpreted runs of the counting recursion", n, 25)
+    ctx.explain("E-SAT.scale: every subtraction involving sat_count_edge's `vars` parameter is guarded by a comparison on it; "
+                "the number types do not use checked_shl/checked_shr as an overflow test.")
+    n = esat.check_scaling(ctx, F)
+    ctx.floor("E-SAT.scale", "sat_count_edge bodies with a `vars` parameter", n, 5)
     ctx.explain("E-CARRY: in Natural's multi-digit addition no computed carry is overwritten before it is read.")
     fns, defs = ecarry.run(ctx, F)
     ctx.floor("E-CARRY", "carry definitions checked", defs, 8)
